@@ -28,6 +28,13 @@
 //   opt <min_range|max_step_over_range|fixed_step_limiter|linear_loss_limit|
 //        lowest_electron_energy> X
 //   primary <particle name> <E MeV> <x y z cm> <u v w> <event> <count>
+//   errat N    (N>0: a harness action of order `along`, running after the real along-step
+//               actions, calls the REAL CoreTrackView::apply_errored() on every alive track whose
+//               step counter has just reached N: status errored, post-step action = tracking cut;
+//               the REAL tracking-cut action then kills it in the same iteration and deposits
+//               K (+2mc^2 for antiparticles).  Routes any particle type through
+//               TrackingCutExecutor in flight; tracks started outside the world take the
+//               errored-at-initialisation route)
 //   quiet 0|1  (1: only I/T/R lines)
 //   reset      (back to default configuration)
 //   run
@@ -111,6 +118,7 @@ struct Config
 {
     std::string problem = "simple";
     unsigned long slots = 16, capacity = 4096, maxevents = 16, seed = 20220511, maxsteps = 100000;
+    unsigned long errat = 0;   // >0: mark every alive track errored after its errat-th along-step
     double stackfactor = 3.0;
     std::string order = "none";
     std::string along = "linear";
@@ -887,6 +895,34 @@ class MockFix : public MockTestBase
     Config c_;
 };
 
+//! `errat N`: marks tracks errored through the real CoreTrackView::apply_errored
+class ErrorMarker final : public CoreStepActionInterface
+{
+  public:
+    ErrorMarker(ActionId id, size_type nsteps) : id_(id), nsteps_(nsteps) {}
+    void step(CoreParams const& params, CoreStateHost& state) const final
+    {
+        auto const& pref = params.ref<MemSpace::native>();
+        auto const& sref = state.ref();
+        for (auto slot : range(TrackSlotId{state.size()}))
+        {
+            CoreTrackView track(pref, sref, slot);
+            auto sim = track.make_sim_view();
+            if (sim.status() == TrackStatus::alive && sim.num_steps() == nsteps_)
+                track.apply_errored();
+        }
+    }
+    void step(CoreParams const&, CoreStateDevice&) const final { CELER_NOT_CONFIGURED("CUDA"); }
+    ActionId action_id() const final { return id_; }
+    std::string_view label() const final { return "verif-error-marker"; }
+    std::string_view description() const final { return "apply_errored after N steps"; }
+    StepActionOrder order() const final { return StepActionOrder::along; }
+
+  private:
+    ActionId id_;
+    size_type nsteps_;
+};
+
 //---------------------------------------------------------------------------------------------
 // PROBES: independent user actions reading the core state directly
 //---------------------------------------------------------------------------------------------
@@ -1102,6 +1138,10 @@ void run_problem(Fix& fix, Config const& c)
 {
     auto core = make_core(fix, c);
     auto& reg = *fix.action_reg();
+    if (c.errat > 0)
+    {
+        reg.insert(std::make_shared<ErrorMarker>(reg.next_id(), static_cast<size_type>(c.errat)));
+    }
     // probes: inserted last => highest ids => run after every other action of the same order
     struct PD
     {
@@ -1370,6 +1410,8 @@ int main()
             c.seed = u;
         else if (k == "maxsteps" && t.size() == 2 && parse_ulong(t[1], &u) && u >= 1)
             c.maxsteps = u;
+        else if (k == "errat" && t.size() == 2 && parse_ulong(t[1], &u))
+            c.errat = u;
         else if (k == "stackfactor" && t.size() == 2 && parse_double(t[1], &d) && d >= 0)
             c.stackfactor = d;
         else if (k == "order" && t.size() == 2 && (parse_order(t[1], &ok), ok))
@@ -1422,7 +1464,8 @@ int main()
                       << c.stackfactor << " order " << c.order << " seed " << c.seed
                       << " maxsteps " << c.maxsteps << " along " << c.along << " interactor "
                       << c.interactor << " posrest " << c.posrest << " postcut " << c.postcut
-                      << " xsscale " << c.xsscale << " lossscale " << c.lossscale << "\n";
+                      << " xsscale " << c.xsscale << " lossscale " << c.lossscale << " errat " << c.errat
+                      << "\n";
             std::cout.flush();
             try
             {
